@@ -23,6 +23,7 @@ OBLIGATIONS_C03 = [
     "KafVerif.C03.download_chunked_ok_is_stored",
     "KafVerif.C03.download_range_is_contiguous",
     "KafVerif.C03.download_keeps_endpoint",
+    "KafVerif.C03.download_complete_transfer_ok",
     "KafVerif.C03.download_readfull_tolerant_returns_filler",
 ]
 OBLIGATIONS_C06 = [
@@ -34,6 +35,7 @@ OBLIGATIONS_C06 = [
 OBLIGATIONS_C07 = [
     "KafVerif.C07.fetch_ok_is_stored",
     "KafVerif.C07.s3_decode_exact_or_error",
+    "KafVerif.C07.fetch_complete_transfer_ok",
     "KafVerif.C07.fetch_readatleast_returns_prefix",
 ]
 ROOT_BUILD = ("root", "./cmd/verif_c03s3", ["C03s3"])
@@ -419,8 +421,8 @@ def dec_ops(r, segs, quick):
     for k, seg in enumerate(segs):
         L = len(seg) // 2
         toks = get_tokens(r, L, 2)
-        if quick and k >= 3:
-            toks = toks[:2] + [r.choice(toks) for _ in range(8)]
+        if k >= 3:         # the full token sweep on the first three segments, a sample on the others
+            toks = toks[:2] + [r.choice(toks) for _ in range(8 if quick else 14)]
         for t in toks:
             ops.append("s3dec %s %s" % (seg, t))
             meta.append((k, t, L))
